@@ -12,7 +12,7 @@ import re
 REG = json.load(open(os.path.join(HOME, 'lean', 'registry.json')))
 # translated (regenerated from the source on every run) functions whose refinement theorems are obligations of the property
 TRANSLATED = {
-    'C01': 'StateTraj.__init__, _generate_transition_count_matrix, row_normalize_matrix, _estimate_markov_model',
+    'C01': 'StateTraj.__init__, StateTraj.estimate_markov_model, _estimate_markov_model, _generate_transition_count_matrix, row_normalize_matrix (composed end to end)',
     'C11': '_generate_transition_count_matrix, _estimate_markov_model, the md event / pathway kernels and their public wrappers',
     'C05': 'the five dynamical-coring kernels and the public wrapper md.dynamical_coring',
     'C06': 'the five event / waiting-time / pathway kernels, _intersect and the public wrappers md.estimate_waiting_times / md.estimate_paths',
@@ -23,7 +23,7 @@ TRANSLATED = {
     'C20': 'runningmean', 'C16': 'open_limits', 'C15': 'unique, shift_data, rename_by_index, rename_by_population (list-of-arrays form)',
     'C02': 'StateTraj.__init__, the StateTraj accessors, LumpedStateTraj.__init__ and its accessors, the relabelling utilities they use', 'C17': 'StateTraj.__init__, rename_by_index, shift_data',
     'C14': 'is_quadratic, is_transition_matrix, is_ergodic, is_fuzzy_ergodic, ergodic_mask',
-    'C04': 'equilibrium_population (LAPACK eigen-solver as an oracle with the contract v M = v, v != 0), is_ergodic, ergodic_mask, row_normalize_matrix', 'C03': 'LumpedStateTraj._estimate_markov_model (Hummer-Szabo projection), row_normalize_matrix, is_ergodic',
+    'C04': 'equilibrium_population (LAPACK eigen-solver as an oracle with the contract v M = v, v != 0), is_ergodic, ergodic_mask, row_normalize_matrix', 'C03': 'LumpedStateTraj.__init__, LumpedStateTraj.estimate_markov_model, LumpedStateTraj._estimate_markov_model (Hummer-Szabo projection), row_normalize_matrix, is_ergodic',
     'C09': '_calc_times, _chapman_kolmogorov_test, _chapman_kolmogorov_test_md (estimators and the rounded geometric grid as oracles)', 'C19': '_split_array, open_limits',
 }
 
